@@ -46,6 +46,21 @@ CHECKS = {
             "Exhaustive over a mask coefficient for the default layout (quick) and ten layouts (thorough); generated layouts, dimension pairs (incl. 1 and non-multiples of 8) and boundary masks with an exact-identity oracle, so no tolerance is involved except in the summary statistics.",
             "Noise-free rows are written through the public structure by the harness. The unbiasedness clause is checked as the exact sum over the exhaustive sweep.",
             "DESIGN.md §3 C08"),
+    "C01": ("exploration", "E1",
+            "rapidcheck over (parameter set, key seed, gate, plaintext tuple, input provenance incl. chained and secret-key-forged inputs at the admissible noise limit) + deterministic gate x row x provenance table on all five back-ends and both builds; oracle = truth table, 3/64 phase band, sign predicted from the harness-computed rounded phase",
+            "Generated and tabulated gate evaluations on real keys with adversarially noisy admissible inputs; every gate x truth-table row x {fresh, chained, forged-max} is executed in every configuration (coverage floor enforced).",
+            "Forged inputs are produced with the secret key by shifting b; admissibility (|phase error| <= 1/32) is self-checked. No statistical assertion.",
+            "DESIGN.md §3 C01"),
+    "C02": ("exploration", "E1+E5",
+            "model-based netlist generation (rapidcheck, structured families, every subsequence valid) checked against a plaintext interpreter after every step + one-sided z=6 tests of pooled / per-key / per-input-class phase-error statistics against the property's bounds",
+            "Random and structured circuits (chains to depth 300 quick / 5000 thorough, trees, fan-out, in-place accumulators, adders, comparators, MUX trees, maximally noisy inputs) with a plaintext model as oracle, and >= 2e4 (quick) / >= 1e5 (thorough) measured gate outputs for the noise clause.",
+            "Statistical tests accept with probability > 1 - 1e-9 per statistic whenever the true moments respect the stated bounds; power depends on sample size (see DESIGN.md).",
+            "DESIGN.md §3 C02"),
+    "C04": ("exploration", "E2+E1",
+            "exhaustive sweep of all 2N rounded phases with both rounding edges on noise-free key sets and the default noisy key set + rapidcheck over key-set menu (n up to 1100 > N, k in {1,2}, gadget/key-switch layouts), inputs, output messages and test polynomials; oracle = harness-computed rounded phase and analytic tolerance",
+            "All 2N values of p (bucket centre, tie-1, tie, tie+1, targeted random mask) for four bootstrap variants; generated inputs/test polynomials/exponent vectors for blind-rotate-and-extract; AddressSanitizer build for the n > N scratch array.",
+            "Tolerances are analytic (gadget truncation, key-switch rounding, 12 x noise bound); cases whose tolerance exceeds 1/16 are counted and not asserted.",
+            "DESIGN.md §3 C04"),
 }
 
 ALL = ["C%02d" % k for k in range(1, 21)]
